@@ -19,7 +19,7 @@ together and every failing pair / triple is individually replayable."""
 import datetime
 from fractions import Fraction
 
-from ..core import Sub, fail, enc, lit
+from ..core import Sub, fail, enc, lit, scale
 
 CMP = ('<', '=', '>', '<=', '>=', '<>')
 BASE = datetime.datetime(1899, 12, 30)
@@ -296,4 +296,52 @@ def short(x):
     return repr(x)
 
 
-SUBS = [Order()]
+
+class CompareScale(Sub):
+    name = 'c07.scale'
+    rule = ('size ladder n: two texts of n characters differing only in the LAST character (and one a prefix of the other), '
+            'integers of n digits (n <= 300) differing by 1, as variables, cells and literals: trichotomy, the derived relations and '
+            'the converse, decided by the last character / digit; non-trivial = all')
+    min_cases = 40
+    min_nontrivial = 40
+
+    def cases(self, tier, unit):
+        for n in scale(tier):
+            yield [n]
+
+    def check(self, env, case):
+        n = case[0]
+        env.nt()
+        base = ''.join('abcdefghij'[i % 10] for i in range(n - 1))
+        # (mixed case is left out: the text order is demanded only where code-point and case-insensitive order agree)
+        pairs = [(base + 'a', base + 'b'), (base + 'y', base + 'z'), (base, base + 'a'), (base + 'a', base + 'a')]
+        if n <= 300:
+            d = int('7' * n)
+            pairs += [(d, d + 1), (-d - 1, -d), (d, d), (d, float(d)) if n <= 15 else (d, d + 2)]
+        out = []
+        for a, b in pairs:
+            if isinstance(a, str):
+                ka, kb = a.lower(), b.lower()
+            else:
+                ka, kb = a, b
+            lt, eq = ka < kb, ka == kb
+            want = {'<': lt, '=': eq, '>': not lt and not eq, '<=': lt or eq, '>=': not lt, '<>': not eq}
+            for route in ('var', 'cell') + (('lit',) if n <= 257 else ()):
+                for op in ('<', '=', '>', '<=', '>=', '<>'):
+                    for x, y, w in ((a, b, want[op]), (b, a, {'<': want['>'], '>': want['<'], '<=': want['>='], '>=': want['<='], '=': eq, '<>': not eq}[op])):
+                        if route == 'var':
+                            o = env.evo('xa%sxb' % op, {'xa': x, 'xb': y})
+                        elif route == 'cell':
+                            o = env.evo('A1%sB2' % op, None, None, {'A1': x, 'B2': y})
+                        else:
+                            o = env.evo('%s%s%s' % (lit(x), op, lit(y)))
+                        if o != ['v', w]:
+                            sx = repr(x) if len(repr(x)) < 30 else repr(x)[:12] + '...' + repr(x)[-8:]
+                            sy = repr(y) if len(repr(y)) < 30 else repr(y)[:12] + '...' + repr(y)[-8:]
+                            out.append(fail('size %d (%s): %s %s %s gives %r, expected %r' % (n, route, sx, op, sy, o, w), w, o))
+                            if len(out) >= 3:
+                                return out
+        return out
+
+
+SUBS = [Order(), CompareScale()]
